@@ -5,6 +5,7 @@ CONSTANTS
   RegVals = {1, 4}
   SingVals = {3, 4}
   MassCacheKeyed = FALSE
+  MassHonoursExplicit = TRUE
   MaxDepth = 7
   EmitJson = FALSE
 INVARIANT TypeOK
